@@ -214,11 +214,11 @@ class SqliteStateStore(Generic[MODEL_T]):
             row = cursor.fetchone()
 
             if row is None:
-                self._save_state(state, conn)
-                conn.commit()
-                return
-
-            current_state = self._deserialize_state(row[0])
+                # No row yet: the store holds its default state, as
+                # _load_state would create it; apply the same type rules.
+                current_state = self._create_default_state()
+            else:
+                current_state = self._deserialize_state(row[0])
             merged = merge_state(current_state, state)
             self._save_state(merged, conn)  # type: ignore[arg-type]
             conn.commit()
